@@ -633,7 +633,7 @@ func Run(r *vk.Run) {
 	// (2c) bursty P2P delivery: the P2P stores jump by far more than a handful of heights between two ticks of the
 	// store loops (a node that was offline, or a peer that delivers in bulk)
 	for c := 0; c < r.N(2, 8); c++ {
-		n := 90 + rng.Intn(120)
+		n := 140 + rng.Intn(160) // well beyond any batch size a store loop might read per wake-up
 		shape := randShape(rng, n, false)
 		p, err := world.ProduceChain(ctx, buildSpec(shape, fmt.Sprintf("b%d", c)), keys)
 		if err != nil {
